@@ -280,7 +280,12 @@ func runShutdown(t *testing.T, p *Plan) *Outcome {
 					}
 				}
 			}
-			if decidedKept {
+			w.mu.Lock()
+			queued := w.queuedAtStop
+			w.mu.Unlock()
+			if decidedKept && !queued {
+				// (with spans still in a worker's queue at the stop this span may be one
+				// of them - the recorded finding - so only runs with empty queues count)
 				site = "collect.InMemCollector.send: trace decided kept but never handed to the transmission"
 				where = "was decided as kept (the decision cache remembers it)"
 			} else if wasBuffered {
